@@ -12,12 +12,15 @@ import (
 type ModAnalysis struct {
 	ex     *Exec
 	cache  map[*ssa.Function]*modInfo
+	prev   map[*ssa.Function]*modInfo
 	inprog map[*ssa.Function]bool
+	hitRec bool
 }
 
 type modInfo struct {
 	vars        map[string]bool
 	all         bool
+	why         string
 	allocVars   map[string]bool         // state vars written only at freshly allocated refs
 	paramWrites map[int]map[string]bool // state vars written only at the object passed as parameter #i
 	allocates   bool
@@ -52,6 +55,9 @@ func (mi *modInfo) allVars() map[string]bool {
 func (mi *modInfo) merge(o *modInfo) {
 	if o.all {
 		mi.all = true
+		if mi.why == "" {
+			mi.why = o.why
+		}
 	}
 	for v := range o.vars {
 		mi.vars[v] = true
@@ -70,7 +76,7 @@ func (mi *modInfo) merge(o *modInfo) {
 }
 
 func NewModAnalysis(ex *Exec) *ModAnalysis {
-	return &ModAnalysis{ex: ex, cache: map[*ssa.Function]*modInfo{}, inprog: map[*ssa.Function]bool{}}
+	return &ModAnalysis{ex: ex, cache: map[*ssa.Function]*modInfo{}, prev: map[*ssa.Function]*modInfo{}, inprog: map[*ssa.Function]bool{}}
 }
 
 func (ma *ModAnalysis) recursive(fn *ssa.Function) bool {
@@ -83,11 +89,44 @@ func (ma *ModAnalysis) info(fn *ssa.Function) *modInfo {
 		return mi
 	}
 	if ma.inprog[fn] {
+		// recursion: use the summary of the previous fixpoint round (optimistic iteration)
+		ma.hitRec = true
+		if prev, ok := ma.prev[fn]; ok {
+			r := newModInfo()
+			r.merge(prev)
+			r.rec = true
+			return r
+		}
 		mi := newModInfo()
-		mi.all = true
 		mi.rec = true
 		return mi
 	}
+	top := len(ma.inprog) == 0
+	if top {
+		ma.hitRec = false
+	}
+	mi := ma.compute(fn)
+	if top && ma.hitRec {
+		// iterate to a fixpoint: summaries only grow
+		for round := 0; round < 6; round++ {
+			for f, s := range ma.cache {
+				ma.prev[f] = s
+			}
+			ma.prev[fn] = mi
+			ma.cache = map[*ssa.Function]*modInfo{}
+			ma.hitRec = false
+			n := ma.compute(fn)
+			same := len(n.vars) == len(mi.vars) && len(n.allocVars) == len(mi.allocVars) && n.all == mi.all && n.allocates == mi.allocates
+			mi = n
+			if same {
+				break
+			}
+		}
+	}
+	return mi
+}
+
+func (ma *ModAnalysis) compute(fn *ssa.Function) *modInfo {
 	ma.inprog[fn] = true
 	mi := newModInfo()
 	for _, b := range fn.Blocks {
@@ -95,11 +134,7 @@ func (ma *ModAnalysis) info(fn *ssa.Function) *modInfo {
 			ma.instr(fn, ins, mi)
 		}
 	}
-	for _, af := range fn.AnonFuncs {
-		_ = af // closures are accounted for where they are called
-	}
 	delete(ma.inprog, fn)
-	// detect direct recursion flag propagated from callee analysis
 	ma.cache[fn] = mi
 	return mi
 }
@@ -262,6 +297,7 @@ func (ma *ModAnalysis) instr(fn *ssa.Function, ins ssa.Instruction, mi *modInfo)
 				}
 			}
 			mi.all = true
+			mi.why = "store through untracked pointer in " + fn.Name() + ": " + i.String()
 		}
 	case *ssa.MapUpdate:
 		ms := w.SortOf(i.Map.Type())
@@ -389,6 +425,7 @@ func (ma *ModAnalysis) call(fn *ssa.Function, cc *ssa.CallCommon, mi *modInfo) {
 		}
 		if callee.Name() == "copy" {
 			mi.all = true
+			mi.why = "copy() in " + fn.Name()
 		}
 	case *ssa.Function:
 		ma.calleeAt(fn, cc, callee, mi)
@@ -511,6 +548,7 @@ func (ma *ModAnalysis) invoke(cc *ssa.CallCommon, mi *modInfo) {
 	iface, ok := cc.Value.Type().Underlying().(*types.Interface)
 	if !ok {
 		mi.all = true
+		mi.why = "invoke on non-interface " + key
 		return
 	}
 	found := false
@@ -835,4 +873,8 @@ func (ma *ModAnalysis) LoopObjMods(fr *Frame, li *loopInfo, vars []string) map[s
 		}
 	}
 	return res
+}
+
+func (ma *ModAnalysis) whyAll(fn *ssa.Function) string {
+	return ma.info(fn).why
 }
